@@ -23,11 +23,16 @@ CONSTANTS
     MaxRefresh,     \* number of refreshes explored
     ItemGiveBackUsesItemTag,  \* TRUE: give_back_resource_pool_item passes the item's own tag
                               \* FALSE: it passes the pool's current discriminant (pre-fix code)
-    AtomicRefresh             \* TRUE: the refresh sets the discriminant and clears the pool in ONE
+    AtomicRefresh,            \* TRUE: the refresh sets the discriminant and clears the pool in ONE
                               \* critical section; FALSE: two separate ones (pre-fix code)
+    MaxReset,                 \* number of reset_available_resources calls explored (0: no resetter)
+    AtomicReset               \* TRUE: the available resources are reset in place under the lock (the
+                              \* code); FALSE: taken out, reset without the lock, appended back in a
+                              \* second critical section (a design the property forbids: witness runs)
 
 Refresher == "rf"
-Proc == User \cup {Refresher}
+Resetter == "rs"
+Proc == User \cup {Refresher, Resetter}
 
 None == [rid |-> 0, gen |-> 0, tag |-> 0]      \* "holds nothing"
 
@@ -40,6 +45,8 @@ VARIABLES
     rf,             \* refresher locals: [dnew, k]   (k = number of fresh resources given so far)
     nextRid,        \* fresh resource ids
     refreshes,      \* refreshes started so far
+    resets,         \* resets started so far
+    taken,          \* (non-atomic reset only) the resources the resetter took out of the pool
     \* ---- observation variables (the property is stated over these) ----
     latestGen,      \* generation announced by the last set_discriminant
     phase,          \* "stable" | "begun" | "set" | "cleared" : progress of the refresh in flight
@@ -48,10 +55,10 @@ VARIABLES
     last            \* [p, a] : the thread that moved last and the action it took (labels the
                     \* edges of the state graph for schedule generation; hidden by a VIEW in MC)
 
-vars == <<resources, disc, pc, held, gb, rf, nextRid, refreshes,
+vars == <<resources, disc, pc, held, gb, rf, nextRid, refreshes, resets, taken,
           latestGen, phase, completedGen, handed, last>>
-genview == <<resources, disc, pc, held, gb, rf, nextRid, refreshes, latestGen, phase, completedGen, last>>
-view == <<resources, disc, pc, held, gb, rf, nextRid, refreshes,
+genview == <<resources, disc, pc, held, gb, rf, nextRid, refreshes, resets, taken, latestGen, phase, completedGen, last>>
+view == <<resources, disc, pc, held, gb, rf, nextRid, refreshes, resets, taken,
           latestGen, phase, completedGen, handed>>
 
 -----------------------------------------------------------------------------
@@ -64,6 +71,7 @@ Init ==
     /\ rf = [dnew |-> 0, k |-> 0]
     /\ nextRid = Size + 1
     /\ refreshes = 0
+    /\ resets = 0 /\ taken = <<>>
     /\ latestGen = 0 /\ phase = "stable" /\ completedGen = 0
     /\ handed = {}
     /\ last = [p |-> "none", a |-> "Init"]
@@ -75,7 +83,7 @@ Holds(u) == held[u].rid # 0
 BeginAcquire(u) ==
     /\ pc[u] = "idle" /\ ~Holds(u)
     /\ pc' = [pc EXCEPT ![u] = "y_acquire"]
-    /\ UNCHANGED <<resources, disc, held, gb, rf, nextRid, refreshes, latestGen, phase,
+    /\ UNCHANGED <<resources, disc, held, gb, rf, nextRid, refreshes, resets, taken, latestGen, phase,
                    completedGen, handed>>
 
 (* lock resources; pop_front; ResourcePoolItem::new reads the discriminant  *)
@@ -88,13 +96,13 @@ Acquire(u) ==
                                    stable |-> (phase = "stable"), want |-> completedGen]}
     /\ resources' = Tail(resources)
     /\ pc' = [pc EXCEPT ![u] = "idle"]
-    /\ UNCHANGED <<disc, gb, rf, nextRid, refreshes, latestGen, phase, completedGen>>
+    /\ UNCHANGED <<disc, gb, rf, nextRid, refreshes, resets, taken, latestGen, phase, completedGen>>
 
 (* empty pool: the caller waits on the condition variable and times out     *)
 AcquireTimeout(u) ==
     /\ pc[u] = "y_acquire" /\ resources = <<>>
     /\ pc' = [pc EXCEPT ![u] = "idle"]
-    /\ UNCHANGED <<resources, disc, held, gb, rf, nextRid, refreshes, latestGen, phase,
+    /\ UNCHANGED <<resources, disc, held, gb, rf, nextRid, refreshes, resets, taken, latestGen, phase,
                    completedGen, handed>>
 
 -----------------------------------------------------------------------------
@@ -106,13 +114,13 @@ BeginDrop(u) ==
     /\ gb' = [gb EXCEPT ![u] = [rid |-> held[u].rid, gen |-> held[u].gen, d |-> held[u].tag]]
     /\ held' = [held EXCEPT ![u] = None]
     /\ pc' = [pc EXCEPT ![u] = "y_gb_count"]
-    /\ UNCHANGED <<resources, disc, rf, nextRid, refreshes, latestGen, phase, completedGen, handed>>
+    /\ UNCHANGED <<resources, disc, rf, nextRid, refreshes, resets, taken, latestGen, phase, completedGen, handed>>
 
 (* explicit give_back_resource_pool_item: parked at pool.y.gb_item ...       *)
 BeginGiveBackItem(u) ==
     /\ pc[u] = "idle" /\ Holds(u)
     /\ pc' = [pc EXCEPT ![u] = "y_gb_item"]
-    /\ UNCHANGED <<resources, disc, held, gb, rf, nextRid, refreshes, latestGen, phase,
+    /\ UNCHANGED <<resources, disc, held, gb, rf, nextRid, refreshes, resets, taken, latestGen, phase,
                    completedGen, handed>>
 
 (* ... then takes the resource and evaluates the discriminant argument      *)
@@ -122,7 +130,7 @@ GiveBackItemReadDisc(u) ==
                                 d |-> IF ItemGiveBackUsesItemTag THEN held[u].tag ELSE disc]]
     /\ held' = [held EXCEPT ![u] = None]
     /\ pc' = [pc EXCEPT ![u] = "y_gb_count"]
-    /\ UNCHANGED <<resources, disc, rf, nextRid, refreshes, latestGen, phase, completedGen, handed>>
+    /\ UNCHANGED <<resources, disc, rf, nextRid, refreshes, resets, taken, latestGen, phase, completedGen, handed>>
 
 -----------------------------------------------------------------------------
 (* give_back_resource, shared by users and refresher                        *)
@@ -147,12 +155,12 @@ AfterGiveBack(p) ==
 GbCountFull(p) ==
     /\ pc[p] = "y_gb_count" /\ Len(resources) = Size
     /\ AfterGiveBack(p)
-    /\ UNCHANGED <<resources, disc, held, refreshes, latestGen, handed>>
+    /\ UNCHANGED <<resources, disc, held, refreshes, resets, taken, latestGen, handed>>
 
 GbCountNotFull(p) ==
     /\ pc[p] = "y_gb_count" /\ Len(resources) # Size
     /\ pc' = [pc EXCEPT ![p] = "y_gb_lock"]
-    /\ UNCHANGED <<resources, disc, held, gb, rf, nextRid, refreshes, latestGen, phase,
+    /\ UNCHANGED <<resources, disc, held, gb, rf, nextRid, refreshes, resets, taken, latestGen, phase,
                    completedGen, handed>>
 
 (* lock resources; compare discriminants; push_back; notify                  *)
@@ -160,12 +168,12 @@ GbPush(p) ==
     /\ pc[p] = "y_gb_lock" /\ disc = gb[p].d
     /\ resources' = Append(resources, [rid |-> gb[p].rid, gen |-> gb[p].gen])
     /\ AfterGiveBack(p)
-    /\ UNCHANGED <<disc, held, refreshes, latestGen, handed>>
+    /\ UNCHANGED <<disc, held, refreshes, resets, taken, latestGen, handed>>
 
 GbStale(p) ==
     /\ pc[p] = "y_gb_lock" /\ disc # gb[p].d
     /\ AfterGiveBack(p)
-    /\ UNCHANGED <<resources, disc, held, refreshes, latestGen, handed>>
+    /\ UNCHANGED <<resources, disc, held, refreshes, resets, taken, latestGen, handed>>
 
 -----------------------------------------------------------------------------
 (* the refresh, as MithrilProverService::compute_cache performs it           *)
@@ -176,6 +184,7 @@ RfBegin ==
     /\ pc[Refresher] = "idle" /\ refreshes < MaxRefresh
     /\ rf' = [dnew |-> disc + 1, k |-> 0]
     /\ refreshes' = refreshes + 1
+    /\ UNCHANGED <<resets, taken>>
     /\ phase' = "begun"
     /\ pc' = [pc EXCEPT ![Refresher] = "y_set_disc"]
     /\ UNCHANGED <<resources, disc, held, gb, nextRid, latestGen, completedGen, handed>>
@@ -186,7 +195,7 @@ RfSetDisc ==
     /\ disc' = rf.dnew
     /\ latestGen' = rf.dnew /\ phase' = "set"
     /\ pc' = [pc EXCEPT ![Refresher] = "y_clear"]
-    /\ UNCHANGED <<resources, held, gb, rf, nextRid, refreshes, completedGen, handed>>
+    /\ UNCHANGED <<resources, held, gb, rf, nextRid, refreshes, resets, taken, completedGen, handed>>
 
 RfClear ==
     /\ pc[Refresher] = "y_clear"
@@ -197,7 +206,7 @@ RfClear ==
     /\ gb' = [gb EXCEPT ![Refresher] = [rid |-> nextRid, gen |-> rf.dnew, d |-> rf.dnew]]
     /\ nextRid' = nextRid + 1
     /\ pc' = [pc EXCEPT ![Refresher] = "y_gb_count"]
-    /\ UNCHANGED <<disc, held, refreshes, latestGen, completedGen, handed>>
+    /\ UNCHANGED <<disc, held, refreshes, resets, taken, latestGen, completedGen, handed>>
 
 -----------------------------------------------------------------------------
 (* post-fix code: lock resources, lock discriminant, set, clear -- one step  *)
@@ -212,7 +221,38 @@ RfSetDiscAndClear ==
     /\ gb' = [gb EXCEPT ![Refresher] = [rid |-> nextRid, gen |-> rf.dnew, d |-> rf.dnew]]
     /\ nextRid' = nextRid + 1
     /\ pc' = [pc EXCEPT ![Refresher] = "y_gb_count"]
-    /\ UNCHANGED <<held, refreshes, completedGen, handed>>
+    /\ UNCHANGED <<held, refreshes, resets, taken, completedGen, handed>>
+
+-----------------------------------------------------------------------------
+(* reset_available_resources (SqliteConnectionPool::renew_connections; any caller): parked at     *)
+(* pool.y.reset, then ONE critical section in which every available resource is reset in place -- *)
+(* no effect on which resources the pool holds, nor on their generation                           *)
+RsBegin ==
+    /\ pc[Resetter] = "idle" /\ resets < MaxReset
+    /\ resets' = resets + 1
+    /\ pc' = [pc EXCEPT ![Resetter] = "y_reset"]
+    /\ UNCHANGED <<resources, disc, held, gb, rf, nextRid, refreshes, taken, latestGen, phase, completedGen, handed>>
+
+RsReset ==
+    /\ AtomicReset
+    /\ pc[Resetter] = "y_reset"
+    /\ pc' = [pc EXCEPT ![Resetter] = "idle"]
+    /\ UNCHANGED <<resources, disc, held, gb, rf, nextRid, refreshes, resets, taken, latestGen, phase, completedGen, handed>>
+
+(* the forbidden design: take the resources out, reset them unlocked, append them back *)
+RsTake ==
+    /\ ~AtomicReset
+    /\ pc[Resetter] = "y_reset"
+    /\ taken' = resources /\ resources' = <<>>
+    /\ pc' = [pc EXCEPT ![Resetter] = "y_reset_lock"]
+    /\ UNCHANGED <<disc, held, gb, rf, nextRid, refreshes, resets, latestGen, phase, completedGen, handed>>
+
+RsAppend ==
+    /\ ~AtomicReset
+    /\ pc[Resetter] = "y_reset_lock"
+    /\ resources' = resources \o taken /\ taken' = <<>>
+    /\ pc' = [pc EXCEPT ![Resetter] = "idle"]
+    /\ UNCHANGED <<disc, held, gb, rf, nextRid, refreshes, resets, latestGen, phase, completedGen, handed>>
 
 L(p, a, A) == A /\ last' = [p |-> p, a |-> a]
 
@@ -236,16 +276,24 @@ RfStep ==
     \/ L(Refresher, "RfClear", RfClear)
     \/ L(Refresher, "RfSetDiscAndClear", RfSetDiscAndClear)
 
+RsStep ==
+    \/ L(Resetter, "RsBegin", RsBegin)
+    \/ L(Resetter, "RsReset", RsReset)
+    \/ L(Resetter, "RsTake", RsTake)
+    \/ L(Resetter, "RsAppend", RsAppend)
+
 Next ==
     \/ \E u \in User : UserStep(u)
     \/ \E p \in Proc : GbStep(p)
     \/ RfStep
+    \/ RsStep
 
 Spec == Init /\ [][Next]_vars
 
 Fairness == /\ \A u \in User : WF_vars(UserStep(u))
             /\ \A p \in Proc : WF_vars(GbStep(p))
             /\ WF_vars(RfStep)
+            /\ WF_vars(RsStep)
 FairSpec == Spec /\ Fairness
 
 -----------------------------------------------------------------------------
@@ -274,5 +322,5 @@ TypeOK ==
     /\ disc \in Nat /\ latestGen \in Nat
     /\ phase \in {"stable", "begun", "set", "cleared"}
     /\ \A p \in Proc : pc[p] \in {"idle", "y_acquire", "y_gb_item", "y_gb_count", "y_gb_lock",
-                                  "y_set_disc", "y_clear"}
+                                  "y_set_disc", "y_clear", "y_reset", "y_reset_lock"}
 =============================================================================
